@@ -40,6 +40,9 @@ def run(ctx, col, tier):
              "a comment, raises, or is a blank/filtered-header line", floor=4, exhaustive=True)
     col.rule("R-ROW", "a row is appended to every column list or not at all (converter loop "
              "covers all columns; table lengths agree)", floor=2)
+    col.rule("R-CAPTURE", "every field is numerically what the row says as far as the regex goes: "
+             "only white space is matched outside the capture groups, converter i receives group "
+             "i + 1 (no exponent, sign or digit is accepted and then dropped)", floor=3, exhaustive=True)
     col.assumptions += ["CPython `with` protocol: a truthy __exit__ result suppresses the exception",
                         "builtin exception hierarchy as in the running interpreter"]
     col.not_decided += ["numeric equality of parsed fields (delegated to int()/float())",
@@ -47,6 +50,8 @@ def run(ctx, col, tier):
 
     p = repo.get_def(f"{IO}.parse_swc")
     w, loop, handle = file_loop(ctx, p)
+    from .c01 import r_capture
+    r_capture(ctx, col, "R-CAPTURE")
 
     # ---- R-EXC: explicit raise sites + the decode error of the iteration
     raises = [n for n in own_nodes(p) if isinstance(n, ast.Raise)]
